@@ -477,3 +477,54 @@ prologue = Contract(
                  'write and os.remove may fail at every call; the input is a BAM file'],
 )
 UNITS.append(prologue)
+
+
+# ------------------------------------------------------------------------------ merge_bams: returns normally only with a merged AND indexed
+# output (the multiprocess tail writes the success marker right after it); the parts are removed only after that
+def mb_setup(eng):
+    eng.monitor = None
+    eng.ghost = {'merged': False, 'indexed': False, 'removed_before_done': False}
+    eng.spec_env['GHOST'] = eng.ghost
+    E = externals.EXTRA
+
+    def merge(e, a, k, n):
+        fault(e, 'merge')
+        e.ghost['merged'] = True
+
+    def index(e, a, k, n):
+        fault(e, 'index')
+        e.ghost['indexed'] = bool(e.ghost['merged'])
+
+    def move(e, a, k, n):
+        fault(e, 'move')
+        if str(a[0]).endswith('.bai'):
+            e.ghost['indexed'] = bool(e.ghost['merged'])
+        else:
+            e.ghost['merged'] = True
+
+    def remove(e, a, k, n):
+        if not (e.ghost['merged'] and e.ghost['indexed']):
+            e.ghost['removed_before_done'] = True
+        fault(e, 'remove')
+    E['pysam.merge'], E['pysam.index'], E['os.remove'] = merge, index, remove
+    E['shutil.move'] = move
+    E['shutil.which'] = lambda e, a, k, n: None             # no samtools binary: pysam.merge
+    E['os.path.exists'] = lambda e, a, k, n: True
+    for q in ('singlecellmultiomics.bamProcessing.bamFunctions.move', 'singlecellmultiomics.bamProcessing.bamFunctions.which'):
+        pass
+
+
+merge_bams = Contract(
+    PROP, FB + '::merge_bams', name='merge_bams',
+    params={'bams': ('const', ['part1.bam', 'part2.bam']), 'output_path': ('const', 'out.bam'), 'threads': ('const', 4)},
+    cases=[{}, {'bams': ('const', ['part1.bam'])}],
+    setup=mb_setup,
+    ensures={
+        'returns_only_with_a_merged_and_indexed_output': 'GHOST["merged"] and GHOST["indexed"]',
+        'parts_are_removed_only_after_that': 'not GHOST["removed_before_done"]',
+    },
+    raises={'Exception': 'True'},
+    assumptions=['pysam.merge / pysam.index / shutil.move / os.remove may fail at every call; no samtools binary on the PATH (the '
+                 'pysam.merge branch); the parts are indexed'],
+)
+UNITS.append(merge_bams)
